@@ -17,37 +17,37 @@ CLAIMS = {
  'C15': dict(
    technique='static analysis: bit-provenance domain over the 72 record bits (bijection check) + polynomial normal forms of the header/particle formulas + syntax-directed record-discipline rule + resolved-argument rule for the pack9 branch of read_asdf',
    text='Decides that the nibble expansion partitions the 72 bits of a record into six 12-bit fields for every byte pattern, that header records store nothing and particle records '
-        'store at the write counter which is incremented exactly once and returned, and that positions/velocities of the three axes have one consistent cell-relative polynomial form; read_asdf keeps max(npos, nvel) rows of a pack9 read, so the particle count does not depend on which outputs were requested.',
+        'store at the write counter which is incremented exactly once and returned, and that positions/velocities of the three axes have one consistent cell-relative polynomial form; read_asdf keeps max(npos, nvel) rows of a pack9 read, so the particle count does not depend on which outputs were requested. The header test must read byte 0 of the current record.',
    note='The repository has no independent description of the pack9 constants: the oracle is internal consistency plus the property statement. Float rounding not modelled.',
    design_ref='DESIGN.md section 4, C15'),
  'C05': dict(
    technique='static analysis: partial evaluation of the regex-dispatched loaders over match groups + exact polynomial (units-of-measure) normal form per column, compared with a reviewed class table',
    text='Decides the scaling law of every halo column of the literal dtype tables, for every stored value and every (BoxSize, VelZSpace_to_kms): length = raw*B, velocity = raw*Z, '
-        'ratio = i16*ref/32000*conv(ref), sigmavMid^2 = sigmav3d^2-Maj^2-Min^2 homogeneous in Z^2, integers/dimensionless unchanged; the convert_units switch binds (B,Z) to the header keys or to (1,1).',
+        'ratio = i16*ref/32000*conv(ref), sigmavMid^2 = sigmav3d^2-Maj^2-Min^2 homogeneous in Z^2, integers/dimensionless unchanged; the convert_units switch binds (B,Z) to the header keys or to (1,1). The loader table is rebuilt by every instance from its own header (bound once to a new dict, no exit on instance or class state, never stored in shared state).',
    note='Columns whose class the statement does not fix (sigman, *_mainprog, light-cone columns) are computed and reported but not asserted. Values in files and astropy casting are not modelled.',
    design_ref='DESIGN.md section 4, C05'),
  'C02': dict(
    technique='static analysis: regex/loader table totality, partial-evaluated dependency graph, allocation key agreement, stale-loop-variable lint, guarded set inclusion (required columns subset of ensured columns per configuration)',
    text='Decides the request-independence mechanisms: exactly one loader per column; loader dependencies valid and acyclic with the requested key always returned; temporary columns typed by their own '
-        'name; no stale loop variable; for every (cleaned, loaded subsamples) configuration the index columns read by the subsample code are force-added; loaders are pure.',
+        'name; no stale loop variable; for every (cleaned, loaded subsamples) configuration the index columns read by the subsample code are force-added; loaders are pure. Every array built in _read_halo_info that becomes a column carries an explicit dtype that depends on the column.',
    note='Not decided: astropy casting on assignment, file contents, numeric equality between two loads (follows from the mechanisms, argued not checked).',
    design_ref='DESIGN.md section 4, C02'),
  'C06': dict(
    technique='static analysis: exact polynomial normal forms of the assignment weights in the sub-cell offset (kernel equality, partition of unity, non-negativity) + structural deposit-table / index-offset matching',
    text='Decides for all positions, weights, grid shapes and offsets: the per-axis weights of _tsc_scatter and cic_serial equal the standard TSC/CIC kernels at cell offsets -1,0,+1, sum to 1 identically (conservation), '
-        'are non-negative on |d|<=1/2; the 27 deposits pair each cell offset with its weight exactly once and accumulate with += into the supplied grid; periodic indices are rightwrap(i+o, g_axis); in-place wrap and grid plumbing are intact.',
+        'are non-negative on |d|<=1/2; the 27 deposits pair each cell offset with its weight exactly once and accumulate with += into the supplied grid; periodic indices are rightwrap(i+o, g_axis); in-place wrap and grid plumbing are intact. The parallel front end hands the kernel each particle with its own weight (the partition\'s cursor and weights-follow-positions obligations are obligations of this property too).',
    note='Trusted: |round(x)-x| <= 1/2, numba negative-index wrap. Not decided: floating-point rounding; "shifting rolls the grid" follows from geometry+table+wrap and is argued, not separately checked.',
    design_ref='DESIGN.md section 4, C06'),
  'C07': dict(
    technique='static analysis: path-sensitive symbolic evaluation of the npartition choice/validation with linear-integer entailment (floor-div, min/max, parity by integer tightening) + schedule/ownership rules on the prange phases',
    text='Decides the premises of the stripe lemma on the source for all grid sizes, thread counts and user/default npartition: every accepted parallel multi-stripe configuration has 3*npartition <= ngrid and npartition even, the default is never rejected, '
-        'the two prange phases take stripes 2i and 2i+1 (weights alike) covering every stripe once within the stripe table, one coord drives key and grid axis, key = min(int(x*P/box),P-1), footprint is 3 cells, no other shared store.',
+        'the two prange phases take stripes 2i and 2i+1 (weights alike) covering every stripe once within the stripe table, one coord drives key and grid axis, key = min(int(x*P/box),P-1), footprint is 3 cells, no other shared store. The stripes hold the input particles each with its own weight for every sort option (partition obligations C17-R2/R3/R4 imported).',
    note='The stripe lemma itself (3-cell clouds of stripes >=3 wide and two apart are disjoint; P even handles the periodic seam) is a paper argument in DESIGN.md. Float32 rounding of keys at exact stripe boundaries not modelled; numeric equality with the serial sum is not decided.',
    design_ref='DESIGN.md section 4, C07'),
  'C17': dict(
    technique='static analysis: ownership classification of stores under prange + structural layout/agreement rules on the counting sort + linear-integer bounds prover relative to documented preconditions',
    text='Decides the structure that makes partition_parallel a stripe-ordered permutation for every thread count: private key/histogram/cursor ranges, identical block table and keys in both passes, '
-        'transposed exclusive prefix sum paired with its reshape, stripe offsets copied before the scatter, weights moved with the same cursor and source row, inputs never stored to, all subscripts in bounds.',
+        'transposed exclusive prefix sum paired with its reshape, stripe offsets copied before the scatter, weights moved with the same cursor and source row, inputs never stored to, all subscripts in bounds. The outputs are allocated with the element type of their inputs.',
    note='Assumed (listed in the evidence): positions in [0,boxsize) so keys are >= 0; cursors stay inside [0,N) by the prefix-sum construction. Not decided: float32 rounding of keys at stripe boundaries; numerical correctness of np.cumsum.',
    design_ref='DESIGN.md section 4, C17'),
  'C08': dict(
@@ -59,7 +59,7 @@ CLAIMS = {
  'C12': dict(
    technique='static analysis: computed set of per-halo arrays (allocation dimension + flow into halo_data) compared with the set permuted in the re-sort branch; slab-slice agreement; ordering rules',
    text='Decides that concatenation and re-sorting treat every per-halo array alike for every file layout and flag combination: every array allocated per halo that reaches halo_data is permuted by the argsort of the ids under the flags of its allocation, '
-        'all per-halo / per-particle arrays are filled through one slab slice with the ticker advanced once after the stores, sortedness is asserted after the re-sort and pinds is the sorted search of phid in the re-sorted hid.',
+        'all per-halo / per-particle arrays are filled through one slab slice with the ticker advanced once after the stores, sortedness is asserted after the re-sort and pinds is the sorted search of phid in the re-sorted hid. Both sides of the sorted id search are integer buffers.',
    note='Precondition (not decided): ids duplicate-free and present; HDF5 contents.',
    design_ref='DESIGN.md section 4, C12'),
  'C14': dict(
@@ -71,26 +71,26 @@ CLAIMS = {
  'C16': dict(
    technique='static analysis: key agreement between membership tests and column names, constant propagation of _resolve_columns and of the column-detection block over their finite input domains (144 option combinations, 16 sets of raw columns), decoder arguments resolved through the locals of read_asdf',
    text='Decides the column-set and plumbing clauses: each column is added iff its own name is in the resolved load list (PID fields via the kwargs comprehension over what unpack_pids accepts), defaults per raw column as documented, '
-        'auto-detection raises for zero or several known columns, each raw column selects exactly one decode branch which writes into the table buffers with the requested dtype and defines the truncation count; meta is the header.',
+        'auto-detection raises for zero or several known columns, each raw column selects exactly one decode branch which writes into the table buffers with the requested dtype and defines the truncation count; meta is the header. The header ppd reaches the pid decoder rounded to nearest or unchanged, never truncated.',
    note='Value independence from co-requested columns is C04-R6/C15-R5. asdf/astropy behaviour and file contents are not modelled.',
    design_ref='DESIGN.md section 4, C16'),
  'C18': dict(
    technique='static analysis: floor-division normal forms of the code decomposition; per-cap abstract interpretation of the vectorised decoder over exact Laurent polynomials with sqrt / reciprocal / row-norm / trig symbols and a polynomial-identity checker modulo their defining relations; numeric-kind rule for unsigned wraparound',
    text='Decides the algebraic structure of _unpack_euler16 for all 65340 codes: cap/cell/azimuth decomposition with A=45, T=11; for each of the 12 caps the major axis is identically a signed permutation of the unit vector of the documented inverse cell map and the 12 permutations are distinct; '
         'minor . major = 0 identically, every division in the construction is by a strictly positive quantity, minor carries (cos az, sin az) with az = (iaz + 1/2) pi / 45; '
-        'middle = minor x major identically; minor and middle normalised; integer subtractions on the (possibly unsigned) code cannot wrap.',
+        'middle = minor x major identically; minor and middle normalised; integer subtractions on the (possibly unsigned) code cannot wrap. The per-cap evaluator executes constant loops and conditional expressions, so a table written as a loop over the 12 caps is decided like the unrolled one.',
    note='Not decided: distinctness within a cap (injectivity of the real-valued cell map) and the 4-degree angular coverage, which are numerical.',
    design_ref='DESIGN.md section 4, C18'),
  'C20': dict(
    technique='static analysis: statement-order (dominance) rule for validate-before-write, frame-grammar matching of the write sequence, reader/writer width agreement (C client parsed by regex)',
    text='Decides the framing: no write is reachable before validation of all files x fields; per field the writes are exactly an int64 count accumulating prod(shape) over the files, an int32 itemsize, then one payload per file in argument order; '
-        'no reordering of files/fields, CLI forwards them in order; widths agree with client.c and the documented 8-byte / 4-byte ints.',
+        'no reordering of files/fields, CLI forwards them in order; widths agree with client.c and the documented 8-byte / 4-byte ints. Count and width are accumulated for every file without exits; diagnostics go to stderr only.',
    note='The payload bytes delivered by asdf/blosc are not modelled.',
    design_ref='DESIGN.md section 4, C20'),
  'C01': dict(
    technique='static analysis: provenance of the write-offset cumulative sums, key agreement of the kernel-call table (f-string keys partially evaluated for A/B x cleaned), zipper typestate rule on both kernels, guarded set comparison of removed/added columns, bounds prover on the zipper kernels',
    text='Decides the index-arithmetic skeleton: write offsets are one (initial,final) cumulative sum per subsample of npout[+npout_merge] with the running total carried A->B; cleaned-away halos are zeroed first; the kernel call pairs read offsets/lengths with the summed columns and hands each file its halo rows (+1 offset); '
-        'both zipper kernels slice every output to the halo write range, decode originals, advance every output by the original length, then decode the merged particles; index columns are replaced by new[:-1] / diff(new); table length is the last offset.',
+        'both zipper kernels slice every output to the halo write range, decode originals, advance every output by the original length, then decode the merged particles; index columns are replaced by new[:-1] / diff(new); table length is the last offset. The callee util.cumsum is decided too (out[0] is the carried offset, each element added once before its store, total returned).',
    note='Not decided: that the stored npstart/npout address the right records (file contents), decoding values (C04), astropy slicing semantics. Zipper bounds are relative to the call-site contract (lengths of the sliced columns) listed as ASSUMED.',
    design_ref='DESIGN.md section 4, C01'),
  'C03': dict(
@@ -120,7 +120,7 @@ CLAIMS = {
  'C13': dict(
    technique='static analysis: interprocedural dependence (information-flow) analysis with shape/value separation and per-key tracking of result dictionaries; ownership classification of stores under prange',
    text='Decides only the second sentence of C13 and the schedule part of the first: neither the values nor the lengths of pos, w, pos2, w2 can reach N_mode, N_mode_poles, the k and mu range columns or the shape of any result column of calc_power (with a positive control that the power column does depend on them); '
-        'every store under prange in the kernels on that path is private, so the thread count only changes floating-point summation order; the in-place normalisation passes visit every cell of the mesh (direct, block-table or chunked forms; a dropped remainder is refuted); get_raw_power is the Hermitian product, evaluated over complex algebra: the cross branch with field2 = field equals the auto branch and a phase factor common to both fields cancels.',
+        'every store under prange in the kernels on that path is private, so the thread count only changes floating-point summation order; the in-place normalisation passes visit every cell of the mesh (direct, block-table or chunked forms; a dropped remainder is refuted); get_raw_power is the Hermitian product, evaluated over complex algebra: the cross branch with field2 = field equals the auto branch and a phase factor common to both fields cancels. The two get_field_fft calls of calc_power bind every parameter alike up to (pos,w)<->(pos2,w2) and no same-named arguments are crossed at calls on the path.',
    note='NOT decided: permutation invariance, translation invariance of the painting / interlacing / compensation stages and cross=auto upstream of get_raw_power (numerical identities of the pipeline; e.g. mis-indexed interlacing phases or transposed compensation axes are invisible to these rules). Termination-insensitive; library calls modelled conservatively.',
    design_ref='DESIGN.md section 4, C13'),
 }
